@@ -118,6 +118,12 @@ def fixed_laws() -> bool:
     ok = all(ks[i] < ks[i + 1] for i in range(len(ks) - 1))
     ok = ok and key("SUPER_007") == key("SUPER_7") and key("SUPER_2") < key("SUPER_10")
     ok = ok and key("SUPER_2") < key("SUPER_2_unloc_1") < key("SUPER_2_unloc_10") < key("SUPER_3")
+    # numerals directly after letters, and an unloc directly after its own chromosome
+    for pre in ("chr", "LG", "SUPER_", ""):
+        names = [pre + "I", pre + "I_unloc_1", pre + "II", pre + "II_unloc_2", pre + "III", pre + "IV", pre + "IV_unloc_1"]
+        a = Assembly("x", scaffolds=[mk(n) for n in reversed(names)])
+        a.smart_sort_scaffolds()
+        ok = ok and [s.name for s in a.scaffolds] == names
     a = Assembly("x", scaffolds=[mk(n) for n in ("IIV", "IIII", "VIII", "XIV", "IVI", "I_II", "9", "", "a1b22c")])
     a.scaffolds_sorted_by_name()
     return FIN(ok)
@@ -138,6 +144,54 @@ def rank_first(r1: int, r2: int, r3: int) -> bool:
         x, y = o[i], o[i + 1]
         ok = AND(ok, OR(x.rank < y.rank, AND(x.rank == y.rank, key(x.name) <= key(y.name))))
     return FIN(AND(ok, len(o) == 3, all(any(s is t for t in o) for s in scs)))
+
+
+def rename_then_sort_again(m: int, n: int, k: int) -> bool:
+    """
+    pre: 0 <= m and 0 <= n and 0 <= k
+    post: _
+    """
+    # history: sort, rename the SAME scaffold objects (as ChrNamer does), sort again: the second
+    # order must follow the NEW names (a key cached per object would be stale)
+    START()
+    scs = [mk("scaffold_3"), mk("scaffold_1"), mk("scaffold_2")]
+    a = Assembly("x", scaffolds=list(scs))
+    a.smart_sort_scaffolds()
+    first = [s.name for s in a.scaffolds] == ["scaffold_1", "scaffold_2", "scaffold_3"]
+    nm = ["SUPER_" + vloader.__vstr__(m), "SUPER_" + vloader.__vstr__(n), "SUPER_" + vloader.__vstr__(k)]
+    for s, new in zip(scs, nm):
+        s.name = new
+    a.smart_sort_scaffolds()
+    o = a.scaffolds
+    ok = True
+    for i in range(2):
+        ok = AND(ok, key(o[i].name) <= key(o[i + 1].name))
+    by_name = a.scaffolds_sorted_by_name()
+    for i in range(2):
+        ok = AND(ok, key(by_name[i].name) <= key(by_name[i + 1].name))
+
+    def concrete():
+        # the same history run natively on concrete names: CrossHair bypasses functools caches
+        # while tracing, so a memoised key would be invisible above
+        cs = [mk("scaffold_3"), mk("scaffold_1"), mk("scaffold_2")]
+        b = Assembly("y", scaffolds=list(cs))
+        b.smart_sort_scaffolds()
+        b.scaffolds_sorted_by_name()
+        for sc, new in zip(cs, ("SUPER_1", "SUPER_10", "SUPER_2")):
+            sc.name = new
+        b.smart_sort_scaffolds()
+        return ([x.name for x in b.scaffolds] == ["SUPER_1", "SUPER_2", "SUPER_10"]
+                and [x.name for x in b.scaffolds_sorted_by_name()] == ["SUPER_1", "SUPER_2", "SUPER_10"])
+    try:
+        from crosshair.tracers import NoTracing, is_tracing
+        if is_tracing():
+            with NoTracing():
+                conc = concrete()
+        else:
+            conc = concrete()
+    except ImportError:
+        conc = concrete()
+    return FIN(AND(ok, first, conc))
 
 
 PERMS = [(0, 1, 2), (0, 2, 1), (1, 0, 2), (1, 2, 0), (2, 0, 1), (2, 1, 0)]
@@ -308,6 +362,7 @@ def conditions(tier):
     c.append(Cond("unloc_order", HEAD, "unloc_order", 120, "SUPER_<n> < SUPER_<n>_unloc_<k> < SUPER_<n+1>, unlocs by number; n,k,j unbounded", encodes=ENC))
     c.append(Cond("sort_places_unloc", HEAD, "sort_places_unloc", 120, "smart_sort of {SUPER_m, SUPER_n_unloc_k, SUPER_n}, n<m unbounded", encodes=ENC))
     c.append(Cond("rank_before_name", HEAD, "rank_first", 300, "3 scaffolds, each rank symbolic in 0..3 (0 = unranked default)", encodes=ENC))
+    c.append(Cond("rename_then_sort_again", HEAD, "rename_then_sort_again", 300, "history sort / rename the same 3 scaffold objects to SUPER_<m>, SUPER_<n>, SUPER_<k> (unbounded) / sort again", encodes=ENC))
     c.append(Cond("permutation_consistent", HEAD, "perm_consistent", 300, "any two of the 6 initial orders of 3 names (symbolic numbers) sort to the same key sequence", encodes=ENC))
     c.append(Cond("never_fails_name_len3_pair", HEAD, "never_fails_2", 900, "two symbolic names, each <= 3 chars over {I,V,1,_}: sorting them does not raise and agrees with the keys", encodes=ENC,
                   tier="thorough"))
